@@ -39,6 +39,13 @@ class Z(Component):      # a type nobody ever carries
     pass
 
 
+ALIAS = [False]      # drift runner: call the deprecated camelCase aliases instead of their replacements
+
+
+def _m(obj, new, old):
+    return getattr(obj, old if ALIAS[0] else new)
+
+
 TYPES = {"A": A, "B": B, "C": C, "D": D, "Z": Z}
 LISTED = ("A", "B", "C", "D")
 BAD = -99999
@@ -119,7 +126,7 @@ class Driver:
                     by_id.append([i, self.obj_of(r)])
             listing = []
             for T in LISTED:
-                lst = mod.systems[TYPES[T]]
+                lst = mod.systems.getComponents(TYPES[T]) if ALIAS[0] else mod.systems[TYPES[T]]
                 try:
                     strict_res = mod.systems.get_components(TYPES[T], throw_error=True)
                     strict = "list" if strict_res else "empty"
@@ -202,7 +209,7 @@ class Driver:
         self.comp_ids[id(comp)] = (tuple(a), serial)
         exc = None
         try:
-            ag.add_component(comp)
+            _m(ag, "add_component", "addComponent")(comp)
             if reg:
                 self.models[self.where(a) or self.model_of(a)][0].systems.register_component(comp)
         except Exception as e:  # noqa: BLE001
@@ -215,7 +222,7 @@ class Driver:
         try:
             if dereg and TYPES[T] in ag:
                 self.models[self.where(a) or self.model_of(a)][0].systems.deregister_component(ag.components[TYPES[T]])
-            ag.remove_component(TYPES[T])
+            _m(ag, "remove_component", "removeComponent")(TYPES[T])
         except Exception as e:  # noqa: BLE001
             exc = e
         self.emit({"op": "detach", "a": list(a), "T": T, "dereg": bool(dereg)}, exc)
@@ -239,7 +246,7 @@ class Driver:
         exc = None
         try:
             if self.models[m][1] == "plain":
-                envr.add_agent(ag)
+                _m(envr, "add_agent", "addAgent")(ag)
             else:
                 envr.add_agent(ag, *[self.to_py(m, v) for v in p])
         except Exception as e:  # noqa: BLE001
@@ -249,7 +256,7 @@ class Driver:
     def op_leave(self, m, i):
         exc = None
         try:
-            self.models[m][0].environment.remove_agent(i)
+            _m(self.models[m][0].environment, "remove_agent", "removeAgent")(i)
         except Exception as e:  # noqa: BLE001
             exc = e
         self.emit({"op": "leave", "m": m, "id": i}, exc)
@@ -258,7 +265,8 @@ class Driver:
         exc = None
         res = ["None", 0]
         try:
-            r = self.models[m][0].environment.get_agent(i, throw_error=True) if strict else self.models[m][0].environment.get_agent(i)
+            ga = _m(self.models[m][0].environment, "get_agent", "getAgent")
+            r = ga(i, throw_error=True) if strict else ga(i)
             if r is not None:
                 res = self.obj_of(r)
         except Exception as e:  # noqa: BLE001
@@ -330,6 +338,41 @@ class Driver:
             exc = e
         self.emit({"op": "move_sat", "ext": [repr(e) for e in ext], "start": [repr(v) for v in start], "dirs": list(dirs), "res": res}, exc)
 
+    def op_dims(self, m):
+        mod, cls, _ = self.models[m]
+        if cls == "plain":
+            return
+        exc = None
+        res = []
+        try:
+            r = mod.environment.get_dimensions()
+            r = r if isinstance(r, tuple) else (r,)
+            res = [self.to_units(m, v) for v in r]
+        except Exception as e:  # noqa: BLE001
+            exc = e
+        self.emit({"op": "dims", "m": m, "cls": cls, "res": res}, exc)
+
+    def op_geom(self, a, b):
+        from ECAgent.Environments import distance_sqr
+        A_, B_ = self.agents[tuple(a)], self.agents[tuple(b)]
+        if PositionComponent not in A_ or PositionComponent not in B_ or self.where(a) is None or self.where(a) != self.where(b):
+            return
+        m = self.where(a)
+        sc = self.scale(m)
+        pa, pb = A_[PositionComponent], B_[PositionComponent]
+        exc = None
+        ev = {"op": "geom", "a": list(a), "b": list(b)}
+        try:
+            def sq(v):
+                v2 = v * sc * sc
+                return int(v2) if v2 == int(v2) else BAD
+            u = lambda t: [self.to_units(m, v) for v in t]  # noqa: E731
+            ev.update(d2ab=sq(distance_sqr(pa, pb)), d2ba=sq(distance_sqr(pb, pa)), xy=u(pa.xy()), xz=u(pa.xz()), yz=u(pa.yz()),
+                      xyz=u(pa.xyz()), getpos=u(pa.getPosition() if ALIAS[0] else pa.get_position()))
+        except Exception as e:  # noqa: BLE001
+            exc = e
+        self.emit(ev, exc)
+
     def _filter_args(self, tpl, tag):
         return [TYPES[t] for t in tpl], ({} if tag is None else {"tag": tag})
 
@@ -338,7 +381,7 @@ class Driver:
         exc = None
         res = []
         try:
-            r = self.models[m][0].environment.get_agents(*args, **kw)
+            r = _m(self.models[m][0].environment, "get_agents", "getAgents")(*args, **kw)
             res = [self.obj_of(x) for x in r]
             r.clear()                  # the caller may modify the returned list
             r.append(None)
@@ -356,7 +399,7 @@ class Driver:
             state = mod.random.getstate()
             for k in range(nseeds):
                 mod.random.seed(1000003 * k + 17)
-                r = mod.environment.get_random_agent(*args, **kw)
+                r = _m(mod.environment, "get_random_agent", "getRandomAgent")(*args, **kw)
                 o = ["None", 0] if r is None else self.obj_of(r)
                 if o not in picks:
                     picks.append(o)
